@@ -122,6 +122,21 @@ class Interp:
             raise Unsupported(f"term of {v!r}")
         return v.t
 
+    def key_term(self, st, v: V):
+        """the term under which a value is looked up / stored in a symbolic dict: tuples are keys BY VALUE (two tuples with the
+        same components are the same key), everything else by its own term"""
+        if v.kind == "tuple" and v.shadow is None:
+            ts = [self.key_term(st, it) for it in v.d]
+            f = z3.Function(f"tuplekey_{len(ts)}", *([T.Val] * len(ts)), T.Val)
+            t = f(*ts) if ts else z3.Const("tuplekey_empty", T.Val)
+            st.assume(T.F_cls(t) == self.reg.cls(tuple))
+            st.assume(T.F_len(t) == len(ts))
+            for i, it in enumerate(ts):
+                st.assume(T.F_at(t, i) == it)
+            self.ctx.assume_note("tuple keys of symbolic dicts are compared component-wise by term identity (finer than ==)")
+            return t
+        return self.term(st, v)
+
     def const_term(self, st, o):
         if o is None:
             return T.NoneV
@@ -783,13 +798,25 @@ class Interp:
         yield st, (RAISE, self.make_exception(st, UnboundLocalError, []))
 
     def e_Tuple(self, node, st):
-        if any(isinstance(e, ast.Starred) for e in node.elts):
-            raise Unsupported("starred in tuple display")
-        for s1, r in self.eval_list(node.elts, st):
+        starred = [isinstance(e, ast.Starred) for e in node.elts]
+        for s1, r in self.eval_list([e.value if isinstance(e, ast.Starred) else e for e in node.elts], st):
             if r[0] != "ok":
                 yield s1, r
-            else:
+            elif not any(starred):
                 yield s1, ("ok", self.tuple_value(r[1]))
+            else:
+                # (*xs, y): every starred operand must have statically known content
+                from . import loops
+                items = []
+                for v, is_star in zip(r[1], starred):
+                    if not is_star:
+                        items.append(v)
+                        continue
+                    inner = loops.as_concrete_items(self, s1, v)
+                    if inner is None:
+                        raise Unsupported("starred operand of statically unknown length in tuple display")
+                    items.extend(inner)
+                yield s1, ("ok", self.tuple_value(items))
 
     def tuple_value(self, items):
         """the value of a tuple display: a constant when every element is one, shadowed per cell when every element is"""
@@ -996,6 +1023,18 @@ class Interp:
             yield from self.handlers["$binop"](self, s1, node.op, r[1][0], r[1][1])
 
     def e_Call(self, node, st):
+        if isinstance(node.func, ast.Name) and node.func.id == "super" and not node.args and not node.keywords \
+                and "super" not in st.env:
+            # zero-argument super() inside a method: the defining class comes from the qualified name of the method
+            qual, first = st.env.get("$qual"), st.env.get("$first")
+            g = st.env.get("$globals") or self.globals
+            cls = g.get(qual.split(".")[0]) if qual else None
+            if not isinstance(cls, type) or first is None or first.kind != "ref" or not isinstance(st.heap.get(first.d), HObj):
+                raise Unsupported("super() outside a method of a heap instance")
+            v = V("sym", t=self.ctx.fresh_val("super"))
+            v.tag = ("super", first, cls)
+            yield st, ("ok", v)
+            return
         for s1, r in self.eval(node.func, st):
             if r[0] != "ok":
                 yield s1, r
@@ -1078,7 +1117,7 @@ class Interp:
                 ho = st.heap.get(selfv.d)
                 if isinstance(ho, _HObj):
                     import inspect as _inspect
-                    fnobj = _inspect.getattr_static(ho.cls, name)
+                    fnobj = f.tag[1] if f.tag and f.tag[0] == "super_fn" else _inspect.getattr_static(ho.cls, name)
                     if isinstance(fnobj, (staticmethod, classmethod)):
                         raise Unsupported("static/class method on heap instance")
                     try:
@@ -1308,7 +1347,10 @@ class Interp:
         if kwargs:
             if a.kwarg is None:
                 return None
-            raise Unsupported("**kwargs collection")
+            # **kwargs: a new dict of the remaining keyword arguments, in call order
+            env[a.kwarg.arg] = self.new_dict(st, [(const(k), v) for k, v in kwargs.items()])
+        elif a.kwarg is not None:
+            env[a.kwarg.arg] = self.new_dict(st, [])
         return env
 
     def call_closure(self, st: St, clo: Closure, args, kwargs):
@@ -1336,6 +1378,8 @@ class Interp:
         saved_env = st.env
         saved_yielded = st.yielded
         env["$depth"] = depth + 1
+        env["$qual"] = clo.qual
+        env["$first"] = args[0] if args else None
         st.env = env
         st.yielded = None
         self.inline_depth += 1
